@@ -2,6 +2,7 @@
 package c07
 
 import (
+	"bytes"
 	"fmt"
 	"math"
 	"math/rand"
@@ -22,7 +23,7 @@ import (
 func init() {
 	driver.Register(&driver.Engine{
 		ID: "C07", Level: "fault_enumeration",
-		Rule: "programs (terminating corpus with S up to ~5000 steps + non-terminating loops/recursion) x step limit N (every N in 1..S+2 thorough, sampled quick) x cancellation from inside built-in call #j x deterministic asynchronous cancellation injected by blocking the step hook at instruction k x exhaustive Cancel/Uncancel/exec sequences (length <= 6 thorough, <= 4 quick) x concurrent Cancel/Uncancel/exec histories checked by porcupine against a set-if-empty register; logical clock = instruction starts counted by VerifStepHook, independent of Thread.Steps. distinct = distinct (arm, program, cut point) with the cut actually observed by the hook",
+		Rule:        "programs (terminating corpus with S up to ~5000 steps + non-terminating loops/recursion) x step limit N (every N in 1..S+2 thorough, sampled quick) x cancellation from inside built-in call #j x deterministic asynchronous cancellation injected by blocking the step hook at instruction k x exhaustive Cancel/Uncancel/exec sequences (length <= 6 thorough, <= 4 quick) x concurrent Cancel/Uncancel/exec histories checked by porcupine against a set-if-empty register; logical clock = instruction starts counted by VerifStepHook, independent of Thread.Steps. distinct = distinct (arm, program, cut point) with the cut actually observed by the hook",
 		Assumptions: []string{"VerifStepHook is called exactly once per instruction start, after the cancellation test", "porcupine v1.3.0 linearizability checker", "Go race detector (race variant)"},
 		Run:         run,
 		Variants: func(tier string) []driver.Variant {
@@ -37,7 +38,7 @@ type hookState struct {
 	count      int64 // instruction starts observed
 	afterFlag  int64 // instruction starts observed while cancelled flag was set
 	cancelled  atomic.Bool
-	blockAt    int64 // block the hook at this instruction start (0 = never) …
+	blockAt    int64  // block the hook at this instruction start (0 = never) …
 	blockFn    func() // … and run this (synchronously) before letting the instruction proceed
 	lastOp     uint8
 	opAtCancel uint8
@@ -115,24 +116,81 @@ var nonTerminating = []program{
 }
 
 type result struct {
-	err      error
-	panic    *sl.Panic
-	hs       *hookState
-	steps    uint64
-	bicalls  int
-	afterBi  int64 // instruction starts observed after a built-in that cancelled returned
-	thread   *starlark.Thread
+	err     error
+	panic   *sl.Panic
+	hs      *hookState
+	steps   uint64
+	bicalls int
+	afterBi int64 // instruction starts observed after a built-in that cancelled returned
+	thread  *starlark.Thread
 }
 
 type runOpts struct {
 	maxSteps  uint64
-	cancelAtB int    // cancel from inside built-in call #j (1-based; 0 = never)
+	cancelAtB int // cancel from inside built-in call #j (1-based; 0 = never)
 	reason    string
 	second    string // a second Cancel with this reason right after the first
 	blockAt   int64
 	blockFn   func(th *starlark.Thread)
 	thread    *starlark.Thread // reuse
 	ops       *[256]int64
+	entry     string // "" or "file": ExecFileOptions; "repl": ExecREPLChunk; "program": SourceProgramOptions+Init; "compiled": Write, CompiledProgram, Init; "call": compile on a scratch thread, then starlark.Call of the module body wrapped in a function; "eval": EvalOptions (src must be an expression)
+}
+
+// entryPoints are the public ways of starting an execution on a thread.
+var entryPoints = []string{"file", "repl", "program", "compiled", "call", "eval"}
+
+// runEntry starts src on th through the chosen entry point.
+func runEntry(entry string, fopts *syntax.FileOptions, th *starlark.Thread, src string, env starlark.StringDict) error {
+	isPre := func(name string) bool { _, ok := env[name]; return ok }
+	switch entry {
+	case "", "file":
+		_, err := starlark.ExecFileOptions(fopts, th, "c07.star", src, env)
+		return err
+	case "repl":
+		f, err := fopts.Parse("c07.star", src, 0)
+		if err != nil {
+			return err
+		}
+		globals := starlark.StringDict{}
+		for k, v := range env {
+			globals[k] = v
+		}
+		return starlark.ExecREPLChunk(f, th, globals)
+	case "program", "compiled":
+		_, prog, err := starlark.SourceProgramOptions(fopts, "c07.star", src, isPre)
+		if err != nil {
+			return err
+		}
+		if entry == "compiled" {
+			var buf bytes.Buffer
+			if err := prog.Write(&buf); err != nil {
+				return err
+			}
+			if prog, err = starlark.CompiledProgram(&buf); err != nil {
+				return err
+			}
+		}
+		_, err = prog.Init(th, env)
+		return err
+	case "call":
+		// the module body becomes the body of a function built on another thread; only the call runs on th
+		var b strings.Builder
+		b.WriteString("def c07_main():\n")
+		for _, line := range strings.Split(strings.TrimRight(src, "\n"), "\n") {
+			b.WriteString("    " + line + "\n")
+		}
+		g, err := starlark.ExecFileOptions(fopts, &starlark.Thread{Name: "c07-build"}, "c07.star", b.String(), env)
+		if err != nil {
+			return err
+		}
+		_, err = starlark.Call(th, g["c07_main"], nil, nil)
+		return err
+	case "eval":
+		_, err := starlark.EvalOptions(fopts, th, "c07.star", src, env)
+		return err
+	}
+	return fmt.Errorf("unknown entry %q", entry)
 }
 
 func execute(src string, o runOpts) *result { return executeOpts(src, sl.AllOptions(), o) }
@@ -172,7 +230,7 @@ func executeOpts(src string, fopts *syntax.FileOptions, o runOpts) *result {
 	}
 	steps0 := th.ExecutionSteps()
 	res.panic = sl.Safe(func() {
-		_, res.err = starlark.ExecFileOptions(fopts, th, "c07.star", src, env)
+		res.err = runEntry(o.entry, fopts, th, src, env)
 	})
 	if res.panic != nil {
 		if _, ok := res.panic.Value.(abortRun); ok {
@@ -531,8 +589,27 @@ func checkSequence(c *driver.Ctx, ops []string, seq []int) {
 			if op == "exec" {
 				limited = false
 			}
-			r := execute("def f():\n    return [i for i in range(5)]\nx = f()\n", o)
+			// every public entry point in turn (which one is fixed by the sequence and the position in it)
+			eh := step
+			for _, x := range seq {
+				eh = eh*7 + x
+			}
+			o.entry = entryPoints[eh%len(entryPoints)]
+			src := "def f():\n    return [i for i in range(5)]\nx = f()\n"
+			switch o.entry {
+			case "eval":
+				src = "[j for j in [i for i in range(5)]]" // an expression needing more than 5 steps
+				if reg != "" {
+					// on a cancelled thread even the smallest expressions must be refused
+					src = []string{"bi", "(bi)", "1", "bi()", src}[eh%5]
+				}
+			case "call":
+				src = "y = [i for i in range(5)]\nx = [j for j in y]\n"
+			}
+			r := execute(src, o)
 			c.Eval(1)
+			c.Cover("sequence_entry_points", o.entry)
+			names[len(names)-1] = op + "@" + o.entry
 			detail := map[string]any{"sequence": names, "step": step, "model_reason": reg, "err": fmt.Sprint(r.err), "instruction_starts": r.hs.count}
 			switch {
 			case r.panic != nil:
